@@ -263,6 +263,15 @@ Theorem C20_clone_keeps_dtype : forall h c e,
 Proof. exact clone_keeps_dtype. Qed.
 Print Assumptions C20_clone_keeps_dtype.
 
+(* self-extension e.extend(e): like a list, the emulsion is extended by the droplets it held before the call *)
+Theorem C20_self_extend_doubles : forall h c e,
+  wf h -> Sep h -> Aligned h -> nth_error (ems h) c = Some e ->
+  let r := exec h (OExtendSelf c true false) in
+  snd r = Ok /\
+  option_map snd (nth_error (s_ems (abs (fst r))) c) = Some (abs_vals h (e_mem e) ++ abs_vals h (e_mem e)).
+Proof. exact self_extend_doubles. Qed.
+Print Assumptions C20_self_extend_doubles.
+
 (* summary queries *)
 Theorem C20_stats_perm_invariant : forall (vol area : value -> Q) vs vs',
   Permutation vs vs' ->
